@@ -82,7 +82,7 @@ Inductive event :=
 | EvDiscard (id : N)
 | EvCrash.
 
-Record lentry := mkLE { le_parent : N; le_cancelled : bool }.
+Record lentry := mkLE { le_parent : N; le_cancelled : bool; le_owner : nat (* ghost: the call that registered it *) }.
 
 Record faults := mkFaults {
   f_wreq : option N; f_wres : option N; f_marshal : option N; f_unmarshal : option N
@@ -137,7 +137,7 @@ Fixpoint tset (l : list (tname * tstate)) (t : tname) (st : tstate) : list (tnam
   | (t', st') :: r => if tname_eqb t t' then (t', st) :: r else (t', st') :: tset r t st
   end.
 
-Definition dummy_le : lentry := mkLE 0%N true.
+Definition dummy_le : lentry := mkLE 0%N true 0.
 Definition le_done (en : list lentry) (cn : list N) (e : nat) : bool :=
   le_cancelled (nth e en dummy_le) || memN (le_parent (nth e en dummy_le)) cn.
 
@@ -191,7 +191,7 @@ Definition wake (calls : list callspec) (s : lst) : lst :=
 
 (* responseResolver.Close *)
 Definition do_close (s : lst) : lst :=
-  mkL (threads s) [] true (map (fun en => mkLE (le_parent en) true) (ents s)) (cancelled s)
+  mkL (threads s) [] true (map (fun en => mkLE (le_parent en) true (le_owner en)) (ents s)) (cancelled s)
       (fatal s) (closures s) (remotes s) (loops_done s) (flt s) (npub s) (nreq s) (evs s) (crashed s).
 
 (* responseResolver.Free *)
@@ -201,7 +201,7 @@ Definition do_free (s : lst) (id : N) : lst :=
   | Some e =>
       mkL (threads s) (removeN id (tbl s)) (bclosed s)
           (match nth_error (ents s) e with
-           | Some en => upd (ents s) e (mkLE (le_parent en) true)
+           | Some en => upd (ents s) e (mkLE (le_parent en) true (le_owner en))
            | None => ents s end)
           (cancelled s) (fatal s) (closures s) (remotes s) (loops_done s) (flt s)
           (npub s) (nreq s) (evs s) (crashed s)
@@ -312,7 +312,7 @@ Definition step_env (calls : list callspec) (s : lst) (a : envact) : option lst 
                 else
                   let e := length (ents s1) in
                   Some (mkL (tset (threads s1) (TCall i) (CRegistered e)) ((N.of_nat i, e) :: tbl s1) (bclosed s1)
-                            (ents s1 ++ [mkLE (c_ctx cs) false]) (cancelled s1) (fatal s1)
+                            (ents s1 ++ [mkLE (c_ctx cs) false i]) (cancelled s1) (fatal s1)
                             (closures s1) (remotes s1) (loops_done s1) (flt s1) (npub s1) (nreq s1) (evs s1) (crashed s1))
             end
         | _, _ => None
